@@ -61,6 +61,18 @@ CLAIMED = {
         text="For every valid corpus state (batch-constructed, every valid flip-closure state up to a cap, incremental build, after each vertex removal) of every subset of the alphabets (D=2..5, both kernels): every point of the half-step refinement of the bounding grid extended by one cell (D<=3) plus all vertices, edge midpoints, cell and facet centroids and outward reflections through facets, with every hint class (none, live cells, a removed key, a foreign key), through locate and locate_with_stats. InsideCell(c) requires the point in c's closed simplex (exact arithmetic); Outside requires the point strictly outside every cell; the answer class must not depend on the hint; both entry points must agree.",
         note="Quick tier uses 3 evenly spread live-cell hints per state (all cells in thorough). Queries with a non-zero facet determinant inside the tolerance band are skipped (none occur on the half-integer grids).",
         design_ref="DESIGN.md section 5 (C10)"),
+    "C11": dict(
+        category="model_checking",
+        technique="exhaustive enumeration of (valid state, operation, hull query) triples on the real objects; reference boundary and exact sidedness oracle; staleness obligations derived from observed change or recorded post-mutation failpoint hits",
+        text="For every valid corpus state (D=2..5, both kernels) a ConvexHull is built on an independent copy of the triangulation (own generation counter): its facets must be exactly the facets incident to one cell, form a closed surface with every vertex on the closed inner side (exact), validate() must accept, and find_visible_facets / is_point_outside / is_facet_visible_from_point must equal exact sidedness for every decidable query point. Then every op of the alphabet - inserts (incl. one with 1e200 coordinates that mutates and rolls back), duplicate-UUID insert, removal of every vertex and of an unknown one, flip handles, both repairs, policy setters, mutable-view touch, clone swap, serde swap - is applied to the very object the hull was built from: if the complex changed, or the operation failed after mutating (a failpoint site was reached in record mode) and rolled back, every hull query must report staleness; if nothing changed and the hull still answers, the answers must still be exact.",
+        note="Each (state, op) pair uses a serde-rebuilt object so that no sibling's generation bump can mask a missing one (the counter is an Arc shared with clones). Policy setters are not changes to the triangulation (a first version of this check alarmed on them: corrected, see DESIGN.md).",
+        design_ref="DESIGN.md section 5 (C11)"),
+    "C15": dict(
+        category="model_checking",
+        technique="exhaustive enumeration of (valid state, query API, key) triples compared with brute-force face enumeration of the raw cells",
+        text="On every valid corpus state (constructed, valid flip-closure states, incremental build, after removal, after repair, after one more insertion; D=2..5, both kernels) every query API - edges, number_of_edges, incident_edges, adjacent_cells, cell_neighbors, facets, boundary_facets, number_of_boundary_facets, cell_vertices, vertex_coords, the AdjacencyIndex and every *_with_index twin, count_simplices, count_boundary_simplices, euler_characteristic, classify_triangulation - is evaluated for every live vertex / cell key and one foreign key each and compared with values obtained by enumerating faces of the stored cells directly; every triangulation with cells must be classified as a ball (single simplex) with chi = 1 and a closed boundary sphere.",
+        note="Brute-force enumeration reads cells and vertices through the public iterators only.",
+        design_ref="DESIGN.md section 5 (C15)"),
     "C12": dict(
         category="exploration",
         technique="exhaustive enumeration of grid tuples x vertex orders x scale variants against an exact (bigint) sign oracle",
